@@ -25,6 +25,7 @@ KINDS = {
     'e[p=${1} q=${1:d}]': dict(sc=False, attrs=[[1], [1]], text=None),
     'e[p=${2} q=${1}]': dict(sc=False, attrs=[[2], [1]], text=None),
     'f{${1:a} ${3} ${1}}': dict(sc=False, attrs=[], text=[1, 3, 1]),
+    'g[id="${1:a}" class="${1:b}" p]': dict(sc=False, attrs=[[1], [1], 'caret'], text=None),
 }
 IMPLICIT_KINDS = ['x', 'x{t}', 'y[p]', 'q[p=""]', 'z[p q=v]', 'w[p q]/', 'k/']
 POS_KINDS = ['x', 'x{t}', 'y[p]', 'q[p=""]', 'w[p q]/', 'f{${1:a} ${3} ${1}}', 'p{l1\nl2}', 'a', 'img']
